@@ -232,12 +232,21 @@ def r2_lme(ctx):
     Zt = sp.Symbol("Z_T", commutative=False)
     r = sp.Symbol("resid", commutative=False)
     C = sp.Symbol("cov_re_unscaled_inv", commutative=False)
+    trunc = [c for c in ast.walk(g.node) if isinstance(c, ast.Call) and U(c.func).split(".")[-1] in ("pinv", "pinvh", "lstsq") and (len(c.args) > 1 or any(k.arg in ("rcond", "rtol", "atol", "cond") for k in c.keywords))]
+    if trunc:
+        ctx.violation("C20.R2", g, trunc[0], f"`{U(trunc[0])[:70]}` replaces the inverse of Z'Z + C by a pseudo-inverse truncated at a relative threshold: when the fitted covariance is nearly degenerate "
+                      "(C has an eigenvalue ~1e9 next to one ~1) the small eigen-direction - the one the random effects live in - is cut, and the random effects collapse to 0 instead of the "
+                      "conditional means", construct="generic random effects")
+        rets = []
     try:
+        if not rets:
+            raise IndexError("reported above")
         got = _nc(parse_canon(rets[0]), {"P_1": Z, "P_0": r, "P_2": C})
         ref = (Zt * Z + C) ** -1 * (Zt * r)
         ctx.check(sp.expand(got - ref) == 0, "C20.R2", g, g.node, "random effects = inv(Z'Z + C) Z' r", f"random effects are {got}; documented {ref}", construct="generic random effects")
     except (NFUnsupported, IndexError, SyntaxError) as e:
-        ctx.unknown("C20.R2", g, g.node, f"random-effects expression outside the supported subset: {e}")
+        if not trunc:
+            ctx.unknown("C20.R2", g, g.node, f"random-effects expression outside the supported subset: {e}")
     p = readers[0]
     sub = {k: bp[k] for k in ("res", "an")} if bp else {}
     CI = "$1.parameters['cov_re_unscaled_inv']"
